@@ -521,6 +521,19 @@ fn ser_case(r: &Ctx, t: &mut Tally, e: &Entry, op: Op, db: &[DbField], p: &Prepa
             if got.len() < db.len() {
                 t.add(format!("{}|trailing-cells-omitted", op.name()), 1);
             }
+            // SerializeRow::is_empty ("whether this row contains any values or not") against what serialize()
+            // actually wrote for this column list: is_empty() iff zero values were written.
+            if let (Op::SerRow, Some(f)) = (op, e.is_empty) {
+                match vcore::catch(std::panic::AssertUnwindSafe(|| f(vals))) {
+                    Ok(says_empty) => {
+                        t.add(format!("is_empty|per-case|{}", if says_empty { "true" } else { "false" }), 1);
+                        if says_empty != got.is_empty() {
+                            r.violation(&key("is-empty"), || format!("{}::is_empty() = {says_empty}, but serialize() against database {:?} wrote {} value(s)", e.name, db, got.len()), &case);
+                        }
+                    }
+                    Err(pn) => r.violation(&key("panic"), || format!("{}::is_empty() panicked: {pn}", e.name), &case),
+                }
+            }
             // value -> bytes -> value through the same struct's deserializer
             if let Some(dop) = de_partner(e, op) {
                 // reference decoder; cannot fail after compare_ser_cells passed
@@ -851,7 +864,7 @@ fn main() {
     if outcome_classes < 8 {
         vcore::machinery_error("C16 harness collided on too few outcome classes");
     }
-    r.set_rule("E-ENUM. Per family struct and derive: every subset of its fields missing x every permutation of the rest x {0, 1 extra at every position, 2 extras at every position pair (quick: >4-field structs get 2 extras only with <=1 field missing, 6-field structs only in the order x1,x2)} + one field retyped + Rust-name-instead-of-rename / name-of-a-skipped-field / a repeated name as extra (SerializeRow structs: every field name 2 and 3 times and two names twice, at every position, flattened and renamed fields included - a named bind marker may occur repeatedly; if accepted, every occurrence must carry the field's value and no cell may be missing); serialization x 2|4 value rows x every null pattern of Option fields (quick: null patterns with the first value row) (+ round trip through the struct's own deserializer); deserialization x 2|4 value rows x null patterns of database cells (quick: <=2 nulls or all null, first 6 positions; thorough: every pattern of the first 8 positions) + every UDT truncation point. Oracle cqlref::binder from the attribute documentation. distinct_nontrivial = cases whose database list differs from the declared field list.");
+    r.set_rule("E-ENUM. Per family struct and derive: every subset of its fields missing x every permutation of the rest x {0, 1 extra at every position, 2 extras at every position pair (quick: >4-field structs get 2 extras only with <=1 field missing, 6-field structs only in the order x1,x2)} + one field retyped + Rust-name-instead-of-rename / name-of-a-skipped-field / a repeated name as extra (SerializeRow structs: every field name 2 and 3 times and two names twice, at every position, flattened and renamed fields included - a named bind marker may occur repeatedly; if accepted, every occurrence must carry the field's value and no cell may be missing); serialization x 2|4 value rows x every null pattern of Option fields (quick: null patterns with the first value row) (+ round trip through the struct's own deserializer); deserialization x 2|4 value rows x null patterns of database cells (quick: <=2 nulls or all null, first 6 positions; thorough: every pattern of the first 8 positions) + every UDT truncation point. Oracle cqlref::binder from the attribute documentation. Every accepted SerializeRow case also checks is_empty() == (serialize() wrote zero values). distinct_nontrivial = cases whose database list differs from the declared field list.");
     r.set_exhaustive(true);
     r.sample(json!({"struct": fam[0].source, "op": "ser-value", "db": [["c","boolean"],["a","int"],["b","text"]], "expected": "cells emitted at database positions c,a,b; read back by name"}));
     if let Some(e) = fam.iter().find(|e| e.name == "V12") {
